@@ -30,23 +30,28 @@ def run_demo(wt, demo):
 
 
 def _pytest(wt, args, n, per_test, overall):
+    """Run pytest -v and return the ids (BASELINE style) of the tests reported PASSED, also when the
+    session hangs and is killed by the overall timeout (the partial output is used)."""
+    import re
+
     td = tempfile.mkdtemp(prefix="svt")
-    xml = os.path.join(td, "j.xml")
     env = dict(os.environ, HOME=td)
-    passed = set()
+    cmd = [PY, "-m", "pytest", "-v", "-p", "no:cacheprovider", f"--timeout={per_test}", "-n", str(n), *args]
+    proc = subprocess.Popen(cmd, cwd=wt, env=env, stdout=subprocess.PIPE, stderr=subprocess.STDOUT, text=True, start_new_session=True)
     try:
+        out, _ = proc.communicate(timeout=overall)
+    except subprocess.TimeoutExpired:
+        import signal
+
         try:
-            sh([PY, "-m", "pytest", "-q", "-p", "no:cacheprovider", f"--timeout={per_test}", "-n", str(n), f"--junitxml={xml}", *args],
-               cwd=wt, env=env, timeout=overall)
-        except subprocess.TimeoutExpired:
+            os.killpg(proc.pid, signal.SIGKILL)
+        except Exception:
             pass
-        if os.path.exists(xml):
-            for tc in ET.parse(xml).getroot().iter("testcase"):
-                if not any(ch.tag in ("failure", "error", "skipped") for ch in tc):
-                    passed.add(f"{tc.get('classname')}::{tc.get('name')}")
-    except Exception:  # noqa
-        pass
+        out, _ = proc.communicate()
     shutil.rmtree(td, ignore_errors=True)
+    passed = set()
+    for m in re.finditer(r"PASSED (tests/[\w/]+)\.py::(\S+)", out or ""):
+        passed.add(m.group(1).replace("/", ".") + "::" + m.group(2))
     return passed
 
 
